@@ -145,6 +145,13 @@ class _Builder:
 
         def walk(v):
             if isinstance(v, dict):
+                if v.get("k") == "const" and v.get("tyconst") in sub and str(sub[v["tyconst"]]).strip().isdigit():
+                    # a const generic parameter used as a value: the argument of this call
+                    w = dict(v)
+                    w["bits"] = str(sub[v["tyconst"]]).strip()
+                    w["s"] = "const %s" % w["bits"]
+                    w.pop("tyconst", None)
+                    return w
                 return {k: (pat.sub(rep, vv) if k in ("ty", "n") and isinstance(vv, str) else walk(vv)) for k, vv in v.items()}
             if isinstance(v, list):
                 return [walk(y) for y in v]
